@@ -653,6 +653,26 @@ def judgeCall (call : Outcome F) (recall : Option (Outcome F)) : List String :=
   | .other _ => ["total:call"]
   | .bad => []
 
+/-- a `change` request on a parameter of type `dt` holding `held`, data `j`: what the node stored and reported
+(`ok r`), or the error it answered with.  "Validation either returns a value that lies inside the declared value
+set and denotes the value that was offered, or raises a bad-value error" -/
+def ChangeOK (dt : DType F) (j : JVal F) (held : PVal F) : Outcome F → Prop
+  | .ok r => InSet dt r ∧ ∃ v, WireDenotes dt j v ∧ Denotes dt (some held) v r
+  | .bad => True
+  | .other _ => False
+
+/-- monitor of `ChangeOK`; the Python value the JSON value stands for is not observable in a `change` request, so
+a candidate witness `hint` is passed along (what `import_value` gives) and CHECKED here -/
+def judgeChange (dt : DType F) (j : JVal F) (held : PVal F) (hint : Option (PVal F)) (out : Outcome F) : List String :=
+  match out with
+  | .ok r =>
+    (if inSetB dt r then [] else ["inset:change"]) ++
+    (match hint with
+     | some v => if wireDenotesB dt j v && denotesB dt (some held) v r then [] else ["denotes:change"]
+     | none => ["denotes:change"])
+  | .other _ => ["total:change"]
+  | .bad => []
+
 /-- lone-surrogate inputs and the like: outcome classes only -/
 def judgeTotal (outs : List (Outcome F)) : List String :=
   if outs.all Outcome.total then [] else ["total:unmodelled-input"]
